@@ -16,7 +16,8 @@ use std::path::{Path, PathBuf};
 pub const PROP: &str = "C13";
 
 pub const FAULT_KINDS: &[&str] = &[
-    "exit128_notrepo", "exit128_ambig_head", "exit128_corrupt", "exit128_perm", "exit128_badobj", "exit1_empty_stderr",
+    "exit128_notrepo", "exit128_ambig_head", "exit128_corrupt", "exit128_perm", "exit128_badobj", "exit128_lock", "exit128_shallow", "exit128_auth",
+    "exit128_network", "exit128_dubious", "exit129_usage", "exit128_unknown_rev", "exit1_stdout_and_stderr", "exit1_empty_stderr",
     "exit255_nonutf8_stderr", "exit128_big_stderr", "exit0_stderr_fatal", "ok_empty", "ok_nonnumeric", "ok_negative", "ok_huge",
     "ok_nonutf8", "ok_nul", "ok_bigline", "ok_float", "ok_u32max_plus", "torn_ok", "torn_fail", "junk_before", "junk_after", "sigkill",
     "sigsegv",
@@ -359,7 +360,8 @@ pub fn judge_child(o: &Outcome, argv: &[String], case: &str, trace_len: usize) -
             if let Err(e) = crate::zron::parse(&s) {
                 return mk("result-only", "stdout is exactly one Zerv RON document", format!("{e}; stdout={:?}", short(&s, 300)));
             }
-        } else if let Some(t) = plain_template(argv) {
+        } else if let Some(t) = plain_template(argv).filter(|_| !case.contains(":junk_")) {
+            // (a junk-line fault makes git itself hand over a multi-line value: degraded success)
             // a template without newlines renders to exactly one line (git-derived values cannot contain one)
             let lines = s.matches('\n').count();
             if lines != t.matches('\n').count() + 1 {
@@ -719,6 +721,26 @@ pub fn execute(ctx: &Ctx, scv: &serde_json::Value, rd: &RunDir, stats: &mut Stat
                     }
                     rn.child(cmd, &repo, &case, &plan, None, &[], &[]);
                     rn.stats.bump("fault.git.sequence");
+                }
+                // persistent faults: the same failure on EVERY invocation of one sub-command, and on every
+                // invocation at all (a retry loop only shows when the fault does not go away)
+                let subs: std::collections::BTreeSet<String> = base_trace.iter().map(|(_, _, a)| a.split('"').nth(1).unwrap_or("").to_string()).filter(|s| !s.is_empty() && !s.starts_with('-')).collect();
+                let persistent_kinds: Vec<&str> = FAULT_KINDS.iter().copied().filter(|k| k.starts_with("exit") || *k == "ok_empty" || *k == "sigkill").collect();
+                for kind in &persistent_kinds {
+                    for target in subs.iter().map(|s| format!("sub:{s}")).chain(std::iter::once("*".to_string())) {
+                        let case = format!("c{ci}:persist:{target}:{kind}");
+                        // quick tier: every kind on every invocation ("*"), half of the per-sub-command ones
+                        if ctx.tier == Tier::Quick && sc.only.is_none() && target != "*" && !rn.pick(&case, 2) {
+                            continue;
+                        }
+                        if !rn.wanted(&case) {
+                            continue;
+                        }
+                        let plan = format!("fault {target} {kind}\n");
+                        let (o, _) = rn.child(cmd, &repo, &case, &plan, None, &[], &[]);
+                        rn.stats.bump(&format!("fault.persist.{kind}"));
+                        rn.stats.distinct_key(&format!("persist|{target}|{kind}|{zsub}|{}", if o.ok() { "ok" } else { "fail" }));
+                    }
                 }
                 // whole-run variants
                 for kind in WHOLE_KINDS {
